@@ -169,6 +169,9 @@ def run(ctx):
                 ev = json.loads(open(f).read().split("\n")[matched[0]])
             except Exception:
                 pass
+            if ev and ev.get("e") == "TryBlocked":
+                ctx.violation("%s:trylock-blocked" % label, "trylock (%s) did not return within 3 s while another thread held the lock all the time: trylock must never block" % label, [f])
+                continue
             ctx.violation("%s:not-linearizable" % label, "rwlock history (%s) has no linearization with writers exclusive / readers shared; stuck at event %s: %s" % (label, matched[0], json.dumps(ev)[:300]), [f])
     # witness for "several readers can hold the lock at the same time": two reader critical sections overlap in a history
     for label, f in files:
